@@ -148,6 +148,9 @@ class Machine:
                 return {"floor": math.floor, "ceil": math.ceil, "abs": abs, "trunc": math.trunc, "round": round}[m](v) * 1.0
             if m in ("map_err", "with_compiler_loc", "with_tokens"):
                 return v
+            if m == "abs_diff" and isinstance(v, int) and not isinstance(v, bool) and e[4]:
+                o = r(e[4][0])
+                return abs(int(v) - int(o))          # the unsigned counterpart of the kind always holds the distance
             if m == "try_into" and isinstance(v, int) and not isinstance(v, bool):
                 return int(v) if v >= 0 else ("err", "TryFromIntError")
             if m in ("clone", "into", "to_owned", "as_ptr", "as_mut_ptr", "borrow", "borrow_mut", "as_ref", "as_mut"):
